@@ -92,6 +92,7 @@ uint64_t vh_seed0 = 1;
 int vh_shard = 0, vh_nshards = 1;
 int vh_verbose = 0;
 int vh_slice = 1;
+uint64_t vh_unit_salt;
 int vh_light = 0;
 
 static const char *opt_out = ".";
@@ -551,6 +552,7 @@ vh_unit(const char *gen, uint64_t idx, vh_unit_fn fn, void *arg)
         return;
     }
     snprintf(cur_unit, sizeof cur_unit, "%s", name);
+    vh_unit_salt = vh_mix(seq ^ vh_seed0 ^ idx);
     memset(vh->cur, 0, sizeof vh->cur);
     vh->tag[0] = 0;
     units_run++;
